@@ -21,6 +21,7 @@ import (
 
 type C14Case struct {
 	Aln      AlnSpec   `json:"aln"`
+	Prof     []string  `json:"prof,omitempty"` // rows of another alignment of the same length: the count profile to compare with
 	MapSeeds [3]uint64 `json:"map_seeds"`
 	Ref      int       `json:"ref"` // reference row for the reference-relative counters
 }
@@ -97,6 +98,20 @@ func (c14) Gen(rs uint64, tier string, race bool) interface{} {
 	}
 	c.MapSeeds = [3]uint64{r.U64(), r.U64(), r.U64()}
 	c.Ref = r.Intn(n)
+	// a profile from other rows over the same columns (some characters of the alignment are new to it)
+	for i := r.Range(1, 4); i > 0; i-- {
+		row := make([]byte, l)
+		for k := range row {
+			row[k] = cols[k][r.Intn(n)]
+			if r.Chance(0.25) {
+				row[k] = core[r.Intn(len(core))]
+			}
+			if row[k] >= 'a' && row[k] <= 'z' {
+				row[k] -= 'a' - 'A'
+			}
+		}
+		c.Prof = append(c.Prof, string(row))
+	}
 	return c
 }
 
@@ -231,6 +246,17 @@ func c14Eval(c *C14Case, al align.Alignment) *statSet {
 	s.d("NumGapsUniquePerSequence", fmt.Sprint(g1, g2, g3, gerr))
 	m1, m2, m3, merr := al.NumMutationsUniquePerSequence(prof)
 	s.d("NumMutationsUniquePerSequence", fmt.Sprint(m1, m2, m3, merr))
+	if len(c.Prof) > 0 && len(c.Prof[0]) == L {
+		pal := align.NewAlign(al.Alphabet())
+		for i, row := range c.Prof {
+			pal.AddSequence(fmt.Sprintf("p%d", i), row, "")
+		}
+		p2 := align.NewCountProfileFromAlignment(pal)
+		x1, x2, x3, xe := al.NumGapsUniquePerSequence(p2)
+		s.d("NumGapsUniquePerSequence(other)", fmt.Sprint(x1, x2, x3, xe))
+		y1, y2, y3, ye := al.NumMutationsUniquePerSequence(p2)
+		s.d("NumMutationsUniquePerSequence(other)", fmt.Sprint(y1, y2, y3, ye))
+	}
 	g1, g2, g3, gerr = al.NumGapsUniquePerSequence(nil)
 	s.d("NumGapsUniquePerSequence(nil)", fmt.Sprint(g1, g2, g3, gerr))
 	// the count profile as a table, for the definition check
@@ -710,6 +736,50 @@ func (c14) Run(ctx *Ctx, ci interface{}) (o Outcome) {
 			o.Fail("definition:NumMutationsUniquePerSequence", "residues that are alone in their column (N/X and gaps left out), per row, with the alignment's own profile: %s by definition, %s reported\n%s", want, got, desc())
 			return
 		}
+		if len(c.Prof) > 0 && len(c.Prof[0]) == L {
+			// against the profile of another alignment: "new" = not seen in the profile at that site
+			inProf := func(ch byte, site int) bool {
+				for _, row := range c.Prof {
+					if row[site] == ch {
+						return true
+					}
+				}
+				return false
+			}
+			gnew, gboth, mnew, mboth := make([]int, n), make([]int, n), make([]int, n), make([]int, n)
+			for site := 0; site < L; site++ {
+				cnt := map[byte]int{}
+				for i := 0; i < n; i++ {
+					cnt[a.Seqs[i][site]]++
+				}
+				for i := 0; i < n; i++ {
+					ch := a.Seqs[i][site]
+					isNew := !inProf(ch, site)
+					if ch == '-' {
+						if isNew {
+							gnew[i]++
+							if cnt[ch] == 1 {
+								gboth[i]++
+							}
+						}
+					} else if ch != allc && isNew {
+						mnew[i]++
+						if cnt[ch] == 1 {
+							mboth[i]++
+						}
+					}
+				}
+			}
+			if got, want := s0.disc["NumGapsUniquePerSequence(other)"], fmt.Sprint(ugaps, gnew, gboth, nil); got != want {
+				o.Fail("definition:NumGapsUniquePerSequence", "against the profile of another alignment %q: (unique, new, both) = %s by definition, %s reported\n%s", c.Prof, want, got, desc())
+				return
+			}
+			if got, want := s0.disc["NumMutationsUniquePerSequence(other)"], fmt.Sprint(umuts, mnew, mboth, nil); got != want {
+				o.Fail("definition:NumMutationsUniquePerSequence", "against the profile of another alignment %q: (unique, new, both) = %s by definition, %s reported\n%s", c.Prof, want, got, desc())
+				return
+			}
+			o.Add("profile_of_another_alignment_checked", 1)
+		}
 		avg := func(al, st int) float64 { return float64(al) / float64(st) }
 		gotAvg := s0.floats["AvgAllelesPerSite"][0]
 		okAvg := false
@@ -869,6 +939,11 @@ func (c14) Shrink(ci interface{}) []interface{} {
 			add(func(n *C14Case) bool {
 				for i := range n.Aln.Seqs {
 					n.Aln.Seqs[i] = n.Aln.Seqs[i][:k] + n.Aln.Seqs[i][k+1:]
+				}
+				for i := range n.Prof {
+					if len(n.Prof[i]) > k {
+						n.Prof[i] = n.Prof[i][:k] + n.Prof[i][k+1:]
+					}
 				}
 				return true
 			})
